@@ -19,6 +19,24 @@ def _tweak(rng, c):
     if len(c.get("teams", [])) >= 2 and c["ops"][0].get("init_log", True) and c["ops"][0].get("init_state", True) and rng.random() < 0.15:
         nteam = len(c["teams"])
         c["rewire"] = [sorted(rng.sample(range(nteam), rng.choice([1, 1, min(2, nteam)]))) for _ in c["tasks"]]
+    # skill entries whose PRODUCT looks like a skill although neither factor is one: a worker without the skill
+    # (negative entry, or positive below the tolerance) paired with a facility whose entry makes the product
+    # exceed the tolerance (negative x negative, tiny x large).  "Has the skill" is a test on each entry.
+    fac_tasks = [i for i, t in enumerate(c["tasks"]) if t.get("need_fac") and t.get("teams") and t.get("wps")]
+    if fac_tasks and rng.random() < 0.1:
+        i = rng.choice(fac_tasks)
+        t = c["tasks"][i]
+        nm = str(t["name"])
+        ws = [w for g in t["teams"] for w in c["teams"][g]["workers"]]
+        fs = [f for p_ in t["wps"] for f in c["wps"][p_]["facs"]]
+        if ws and fs:
+            w, f = rng.choice(ws), rng.choice(fs)
+            if rng.random() < 0.5:
+                w["skills"][nm], f["skills"][nm] = "-1/2", "-2/1"
+            else:
+                w["skills"][nm], f["skills"][nm] = "1/1099511627776", "256/1"
+            if "fskills" in w and f.get("name") is not None:
+                w["fskills"][str(f["name"])] = "1/1"
 
 
 K = Kit("C04", _oracle, streams=(("structured", 0.5), ("contention", 0.32), ("pairs", 0.18)), tweak=_tweak)
